@@ -197,6 +197,9 @@ def rebuild(t, f):
         n = dict(g)
         n["elt"], n["src"] = next(it), next(it)
         n["conds"] = list(it)
+        un = unroll_comp(T(o, t.node, t.mod, **n))
+        if un is not None:
+            return un
     elif o == "seq":
         n["effects"] = [next(it) for _ in g["effects"]]
         n["value"] = next(it)
@@ -215,6 +218,43 @@ def rebuild(t, f):
     return T(o, t.node, t.mod, **n)
 
 
+def unroll_comp(c):
+    """[E(x) for x in (a, b)] -> [E(a), E(b)]   (a comprehension over a literal tuple/list without filter)"""
+    src = c.src
+    if src is None or src.op not in ("tuple", "list") or c.conds or c.get("kind") == "DictComp" or any(e.op == "star" for e in src.elts) or len(src.elts) > 8:
+        return None
+    its = [x for x in _walk_terms(c.elt) if x.op == "iterelem" and x.src is src]
+    if len({id(x) for x in its}) > 1:
+        return None
+    out = []
+    for a in src.elts:
+        if its:
+            target = its[0]
+            out.append(tmap(c.elt, lambda x, a=a, target=target: a if x is target else x))
+        else:
+            out.append(c.elt)
+    return T("list", c.node, c.mod, elts=out)
+
+
+def _walk_terms(t):
+    from .terms import walk
+
+    return walk(t)
+
+
+def _simplify(t):
+    """local normal forms that do not depend on the children having changed"""
+    if t.op == "comp":
+        un = unroll_comp(t)
+        if un is not None:
+            return un
+    if t.op == "sub":
+        ob, ix = t.obj, t.idx
+        if ob.op in ("tuple", "list") and ix.op == "const" and type(ix.value) is int and not any(e.op == "star" for e in ob.elts) and -len(ob.elts) <= ix.value < len(ob.elts):
+            return ob.elts[ix.value]
+    return t
+
+
 def tmap(t, f, memo=None):
     """bottom-up rewrite: f is applied to every rebuilt node (f returns a replacement or the node)"""
     memo = memo if memo is not None else {}
@@ -224,7 +264,7 @@ def tmap(t, f, memo=None):
         if k in memo:
             return memo[k][1]
         memo[k] = (x, x)  # cycle guard
-        r = f(rebuild(x, rec))
+        r = f(_simplify(rebuild(x, rec)))
         memo[k] = (x, r)
         return r
 
@@ -284,6 +324,36 @@ def truth(cond, decide):
     if r is None:
         return None
     return r if p else (not r)
+
+
+def graft_effect_guards(ev, t):
+    """seq[check(x); ...](value): an expression-statement call to a repo helper whose body raises under a condition
+    (a guard function extracted from the caller) is turned into control flow - if(cond ? raise : value) - so that
+    rules see the same paths as with the guard written inline"""
+    from .terms import _graft
+
+    if t is None:
+        return t
+    if t.op == "if":
+        return T("if", t.node, t.mod, cond=t.cond, then=graft_effect_guards(ev, t.then), other=graft_effect_guards(ev, t.other))
+    if t.op != "seq":
+        return t
+    value = graft_effect_guards(ev, t.value)
+    keep = []
+    for e in reversed(t.effects):
+        res = None
+        if e.op == "call":
+            res = ev._raising_helper(e.node, e) if hasattr(ev, "_raising_helper") else None
+        if res is not None:
+            if keep:
+                value = T("seq", t.node, t.mod, effects=list(reversed(keep)), value=value)
+                keep = []
+            value = _graft(res, value)
+        else:
+            keep.append(e)
+    if keep:
+        value = T("seq", t.node, t.mod, effects=list(reversed(keep)), value=value)
+    return value
 
 
 def unseq(t):
